@@ -29,23 +29,34 @@ static void on_fire(void) {
 	if (write(fire_fd, b, (size_t)o) < 0) {}
 }
 
+/* descriptors and /dev/shm-backed mappings of this process (a failed call must not leave any behind either) */
+static void res_count(int *nfd, int *nshm) {
+	DIR *d = opendir("/proc/self/fd"); struct dirent *e; FILE *f; char line[512]; *nfd = 0; *nshm = 0;
+	while (d && (e = readdir(d))) if (e->d_name[0] != '.') (*nfd)++;
+	if (d) closedir(d);
+	f = fopen("/proc/self/maps", "r");
+	while (f && fgets(line, sizeof line, f)) if (strstr(line, "/dev/shm/")) (*nshm)++;
+	if (f) fclose(f);
+}
 /* child body: returns through _exit */
 static void child(void (*fn)(void), long long k, int sticky, int outfd) {
-	FILE *out = fdopen(outfd, "w"); int nleak, lsan = 0; long long n;
+	FILE *out = fdopen(outfd, "w"); int nleak, lsan = 0, fd0, shm0, fd1, shm1; long long n;
 	snprintf(uniq, sizeof uniq, "vfC18-%d", (int)getpid());
 	alarm(60);
 	fire_fd = outfd; fire_k = k; fire_sticky = sticky; va_on_fire = on_fire;
+	res_count(&fd0, &shm0);
 	if (k > 0) va_arm(k, sticky); else va_reset_count();
 	fn();
 	n = va_count;
 	va_disarm();
 	p_libsys_shutdown();
+	res_count(&fd1, &shm1);
 #if defined(__SANITIZE_ADDRESS__)
 	/* memory obtained from libc on the library's behalf (getaddrinfo results, ...) never passes through the allocator table: ask the
 	 * leak checker of the sanitizer run-time about everything unreachable at this point (needs ASAN_OPTIONS=detect_leaks=1) */
 	lsan = getenv("VH_LSAN") ? __lsan_do_recoverable_leak_check() : 0;
 #endif
-	fprintf(out, "{\"ev\":\"case\",\"pid\":%d,\"lsan\":%d,\"scenario\":\"%s\",\"k\":%lld,\"sticky\":%d,\"allocs\":%lld,\"fired\":%d,\"bad_free\":%lld,\"damage\":%s%s%s,\"leaks\":", (int)getpid(), lsan, scname, k, sticky, n, va_fired, va_bad_free,
+	fprintf(out, "{\"ev\":\"case\",\"pid\":%d,\"lsan\":%d,\"fds_left\":%d,\"shm_maps_left\":%d,\"scenario\":\"%s\",\"k\":%lld,\"sticky\":%d,\"allocs\":%lld,\"fired\":%d,\"bad_free\":%lld,\"damage\":%s%s%s,\"leaks\":", (int)getpid(), lsan, fd1 - fd0, shm1 - shm0, scname, k, sticky, n, va_fired, va_bad_free,
 	        damage ? "\"" : "", damage ? damage_what : "null", damage ? "\"" : "");
 	nleak = va_report_new(out, 0);
 	fprintf(out, ",\"nleaks\":%d}\n", nleak);
